@@ -86,7 +86,7 @@ Callback::Listener::~Listener()
       {
         Callback::Emitter::SignalData& signalData = *it;
         for(List<Callback::Emitter::Slot>::Iterator i = signalData.slots.begin(); i != signalData.slots.end(); ++i)
-          if(i->receiver == this && i->slot == signalData1.slot)
+          if(i->receiver == this && i->slot == signalData1.slot && i->state != Callback::Emitter::Slot::disconnected)
           {
             if(signalData.activation)
             {
